@@ -327,7 +327,7 @@ def handleReplyStep (cs : CtxSt) (id : ReqId) (ok : Bool) : Option (CtxSt × Lis
       if po.sub then
         -- a subscribe request completed: on success the waiting receivers become local subscribers; wake the waiters
         some ({ cs with byId := upd cs.byId id none, byKey := upd cs.byKey po.key none,
-                        lsubs := if ok then upd cs.lsubs po.key (uni (cs.lsubs po.key) po.rcvs) else cs.lsubs,
+                        lsubs := upd cs.lsubs po.key (if ok then uni (cs.lsubs po.key) po.rcvs else cs.lsubs po.key),
                         pobj := upd cs.pobj pid (some { po with done := some ok }) }, [], .tau "reply")
       else if po.rcvs ≠ [] then
         -- an unsubscribe request completed while new subscribers are waiting: send a new subscribe request at once
